@@ -90,6 +90,88 @@ impl PathResolver for Recs {
     }
 }
 
+/// A record store that hands out only the records a guard filter selects - and decides that by EVALUATING the guard
+/// (with the plain store as its resolver) inside `resolve_ref`, i.e. while the outer evaluation is in progress on
+/// the same thread.  Whatever an evaluator keeps outside its own stack frame is shared with the nested evaluation.
+pub struct Scoped<'a> {
+    pub inner: &'a Recs,
+    pub guard: &'a Filter,
+}
+impl<'a> PathResolver for Scoped<'a> {
+    fn resolve_for(&self, root: &Dict, path: &Path) -> Value {
+        if path.is_empty() || root.is_empty() {
+            return Value::Null;
+        }
+        let mut cur: Value = Value::Dict(root.clone());
+        for seg in path.iter() {
+            let name = seg.to_string();
+            cur = match &cur {
+                Value::Dict(d) => d.get(&name).cloned().unwrap_or(Value::Null),
+                Value::Ref(r) => match self.resolve_ref(r) {
+                    Some(d) => d.get(&name).cloned().unwrap_or(Value::Null),
+                    None => Value::Null,
+                },
+                _ => Value::Null,
+            };
+            if cur.is_null() {
+                break;
+            }
+        }
+        cur
+    }
+    fn resolve(&self, _path: &Path) -> Value {
+        Value::Null
+    }
+    fn resolve_ref(&self, reference: &Ref) -> Option<Dict> {
+        let d = self.inner.resolve_ref(reference)?;
+        let cx = EvalContext::make(&d, ns(), self.inner);
+        if d.is_empty() || self.guard.eval(&cx) {
+            Some(d)
+        } else {
+            None
+        }
+    }
+}
+
+/// the same scoping with the guard's verdicts computed beforehand (no evaluation inside `resolve_ref`)
+pub struct Decided<'a> {
+    pub inner: &'a Recs,
+    pub verdicts: &'a [(Ref, bool)],
+}
+impl<'a> PathResolver for Decided<'a> {
+    fn resolve_for(&self, root: &Dict, path: &Path) -> Value {
+        if path.is_empty() || root.is_empty() {
+            return Value::Null;
+        }
+        let mut cur: Value = Value::Dict(root.clone());
+        for seg in path.iter() {
+            let name = seg.to_string();
+            cur = match &cur {
+                Value::Dict(d) => d.get(&name).cloned().unwrap_or(Value::Null),
+                Value::Ref(r) => match self.resolve_ref(r) {
+                    Some(d) => d.get(&name).cloned().unwrap_or(Value::Null),
+                    None => Value::Null,
+                },
+                _ => Value::Null,
+            };
+            if cur.is_null() {
+                break;
+            }
+        }
+        cur
+    }
+    fn resolve(&self, _path: &Path) -> Value {
+        Value::Null
+    }
+    fn resolve_ref(&self, reference: &Ref) -> Option<Dict> {
+        let d = self.inner.resolve_ref(reference)?;
+        match self.verdicts.iter().find(|(r, _)| r == reference) {
+            Some((_, true)) => Some(d),
+            _ => None,
+        }
+    }
+}
+
 pub fn is_blank(d: &Dict) -> bool {
     d.has_marker("blank")
 }
@@ -186,11 +268,23 @@ pub fn deep_text(n: usize, shape: &str) -> String {
         "sib_nested" => format!("{}a{}", rep("((a)) and ("), rep(")")),
         "sib_bad" => format!("{}a{}", rep("(a and) or ("), rep(")")),
         "pairs" => format!("{}a", rep("((a)) and ")),
+        // a literal in front of the nesting whose TEXT would mislead anything that judges depth from the characters
+        // instead of the tokens: a quote inside a Uri, a backtick inside a Str, parentheses and escaped quotes inside
+        // literals, an unbalanced closing parenthesis inside a Str
+        "lit_uri_quote" => format!("h == `/q?\"x` and {}", rep("(")),
+        "lit_uri_quote_bal" => format!("h == `/q?\"x` and {}a{}", rep("("), rep(")")),
+        "lit_uri_paren" => format!("h == `)))(\"` or {}a{}", rep("("), rep(")")),
+        "lit_str_tick" => format!("h == \"x`y\" and {}", rep("(")),
+        "lit_str_esc" => format!("h == \"\\\"(\\\\\" and {}a{}", rep("("), rep(")")),
+        "lit_str_close" => format!("h == \")))))\" and {}a", rep("(")),
+        "lit_ref_dis" => format!("h == @r \"(`\\\"\" and {}a{}", rep("("), rep(")")),
+        "lit_sym" => format!("^a-b and h == `\"` and {}a", rep("(")),
         _ => rep("a"),
     }
 }
 pub const SHAPES: &[&str] = &[
     "open", "balanced", "spaced", "close", "not", "and", "or", "andor", "path", "group_and", "group_or", "cmp", "sym", "minus", "lt", "quote", "rel", "ws", "id", "siblings", "siblings_or", "sib_and", "sib_or", "sib_nested", "sib_bad", "pairs",
+    "lit_uri_quote", "lit_uri_quote_bal", "lit_uri_paren", "lit_str_tick", "lit_str_esc", "lit_str_close", "lit_ref_dis", "lit_sym",
 ];
 
 fn walk_terms<'a>(o: &'a Or, f: &mut dyn FnMut(&'a Term)) {
@@ -341,6 +435,37 @@ pub fn exec(_label: &str, input: &str, out: &mut CaseOut) {
                 }
             }
             out.stat(if hits > 0 { "ev:some-match" } else { "ev:no-match" });
+            // the same evaluation against a store that is scoped by a guard filter evaluated INSIDE `resolve_ref` (a
+            // nested evaluation on the same thread) must come back, and must give what the plain store gives once the
+            // records the guard rejects are taken out of it
+            {
+                // the guard's verdict on what the plain store hands out for each record's own name, decided up front
+                let verdicts: Vec<(Ref, bool)> = recs
+                    .recs
+                    .iter()
+                    .filter_map(|d| d.get_ref("id").cloned().or_else(|| d.get_str("aka").map(|s| Ref::from(s.value.as_str()))))
+                    .map(|r| {
+                        let ok = match recs.resolve_ref(&r) {
+                            Some(d) => d.is_empty() || filter.eval(&EvalContext::make(&d, ns, &recs)),
+                            None => false,
+                        };
+                        (r, ok)
+                    })
+                    .collect();
+                let kept = Decided { inner: &recs, verdicts: &verdicts };
+                let scoped = Scoped { inner: &recs, guard: &filter };
+                for rec in &recs.recs {
+                    let nested = filter.eval(&EvalContext::make(rec, ns, &scoped));
+                    let plain = filter.eval(&EvalContext::make(rec, ns, &kept));
+                    if nested != plain {
+                        out.fail(
+                            "nested_eval",
+                            format!("record {rec:?}: {nested} against a store that evaluates the filter inside resolve_ref, {plain} against the same store filtered up front"),
+                        );
+                    }
+                }
+                out.stat("ev:nested-resolver");
+            }
             // the loops with visited sets, one request per (term, subject)
             let mut terms: Vec<&Term> = Vec::new();
             walk_terms(&filter.or, &mut |t| terms.push(t));
